@@ -899,6 +899,26 @@ void applyEquivalenceMapToModel(const EquivalenceMap &map, const ModelPtr &model
     }
 }
 
+void copyEquivalenceIds(const EquivalenceMap &map, const ModelPtr &sourceModel, const ModelPtr &targetModel)
+{
+    for (const auto &iter : map) {
+        auto sourceVariable1 = getVariableLocatedAt(iter.first, sourceModel);
+        auto targetVariable1 = getVariableLocatedAt(iter.first, targetModel);
+        for (const auto &stack : iter.second) {
+            auto sourceVariable2 = getVariableLocatedAt(stack, sourceModel);
+            auto targetVariable2 = getVariableLocatedAt(stack, targetModel);
+            auto mappingId = Variable::equivalenceMappingId(sourceVariable1, sourceVariable2);
+            if (!mappingId.empty()) {
+                Variable::setEquivalenceMappingId(targetVariable1, targetVariable2, mappingId);
+            }
+            auto connectionId = Variable::equivalenceConnectionId(sourceVariable1, sourceVariable2);
+            if (!connectionId.empty()) {
+                Variable::setEquivalenceConnectionId(targetVariable1, targetVariable2, connectionId);
+            }
+        }
+    }
+}
+
 void listComponentIds(const ComponentPtr &component, IdList &idList)
 {
     std::string id = component->id();
